@@ -1,0 +1,73 @@
+//! Read-only dump of a compiled automaton (feature `verif`).
+
+use petgraph::visit::EdgeRef;
+use petgraph::Direction;
+
+use crate::indexing::IndexKey;
+use crate::{Constraint, PatternID};
+
+use super::ConstraintAutomaton;
+
+/// One outgoing transition of a state, as stored in the transition graph.
+#[derive(Clone, Debug)]
+pub struct TransitionDump<K, P> {
+    /// The edge index in the underlying graph.
+    pub id: usize,
+    /// The node index of the target state.
+    pub target: usize,
+    /// The constraint on the transition (`None` for epsilon/fail transitions).
+    pub constraint: Option<Constraint<K, P>>,
+}
+
+/// Everything stored for one state of the automaton.
+#[derive(Clone, Debug)]
+pub struct StateDump<K, P> {
+    /// The node index in the underlying graph.
+    pub id: usize,
+    /// The deterministic flag.
+    pub deterministic: bool,
+    /// The accepted patterns with their recorded keys, in stored (hash) order.
+    pub matches: Vec<(PatternID, Vec<K>)>,
+    /// The scope (`required_bindings`) of the state.
+    pub scope: Vec<K>,
+    /// The ordered list of constraint transition ids.
+    pub constraint_order: Vec<usize>,
+    /// The ordered list of epsilon transition ids.
+    pub epsilon_order: Vec<usize>,
+    /// The outgoing edges according to the graph adjacency.
+    pub outgoing: Vec<TransitionDump<K, P>>,
+}
+
+impl<K: IndexKey, P: Clone, I> ConstraintAutomaton<K, P, I> {
+    /// The node index of the root state.
+    pub fn verif_root(&self) -> usize {
+        self.root.0.index()
+    }
+
+    /// Dump every state of the automaton.
+    pub fn verif_dump(&self) -> Vec<StateDump<K, P>> {
+        self.graph
+            .node_indices()
+            .map(|n| {
+                let w = &self.graph[n];
+                StateDump {
+                    id: n.index(),
+                    deterministic: w.deterministic,
+                    matches: w.matches.iter().map(|(&p, ks)| (p, ks.clone())).collect(),
+                    scope: w.required_bindings.clone(),
+                    constraint_order: w.constraint_order.iter().map(|t| t.0.index()).collect(),
+                    epsilon_order: w.epsilon_order.iter().map(|t| t.0.index()).collect(),
+                    outgoing: self
+                        .graph
+                        .edges_directed(n, Direction::Outgoing)
+                        .map(|e| TransitionDump {
+                            id: e.id().index(),
+                            target: e.target().index(),
+                            constraint: e.weight().constraint.clone(),
+                        })
+                        .collect(),
+                }
+            })
+            .collect()
+    }
+}
